@@ -1,8 +1,166 @@
 import Driver.Proto
+import AdaptaVerif.Model.Compound
+import AdaptaVerif.Check.Layout
+/-
+Driver mode c08.
+  gen-noc-* : tie. NonOverlapConstraints / ClusterContainmentConstraints::generateSeparationConstraints
+              of the real classes vs the model, exact.
+  flat-* / clusters-* : end-to-end, ConstrainedFDLayout with overlap avoidance, makeFeasible then run.
+              If nothing was reported unsatisfiable: no two non-exempt rectangles overlap by more than
+              1e-3 in both dimensions; sibling clusters' member bounding boxes do not overlap (same
+              threshold); no foreign node centre inside a cluster's member bounding box.
+-/
 namespace Driver.C08
+open Driver AdaptaVerif.Num AdaptaVerif.Model.Compound AdaptaVerif.Check.Layout
 
-def run (_args : List String) : IO UInt32 := do
-  IO.eprintln "driver mode c08: not implemented yet"
-  return 2
+def tolC08 : Rat := 1 / 1000
+
+structure ClusterSpec where
+  parent : Int
+  pad : Array Rat     -- xMin xMax yMin yMax
+  mar : Array Rat
+  nodes : List Nat
+  deriving Inhabited
+
+def parseRects (c : Case) (key : String) : Option (Array Rect) :=
+  (c.get key).mapM fun l => do
+    let v ← nums? (l.extract 1 5)
+    pure { minX := v[0]!, maxX := v[1]!, minY := v[2]!, maxY := v[3]! }
+
+def parseClusters (c : Case) : Option (Array ClusterSpec) :=
+  (c.get "cluster").mapM fun l => do
+    let pad ← nums? (l.extract 2 6)
+    let mar ← nums? (l.extract 6 10)
+    let k := nat! (l[10]?.getD "0")
+    pure { parent := int! (l[1]?.getD "-1"), pad := pad, mar := mar,
+           nodes := (List.range k).map fun j => nat! (l[11 + j]?.getD "0") }
+
+def parseExempt (c : Case) : List (List Nat) :=
+  (c.get "exempt").toList.map fun l =>
+    (List.range (nat! (l[0]?.getD "0"))).map fun j => nat! (l[1 + j]?.getD "0")
+
+def exemptFn (groups : List (List Nat)) (i j : Nat) : Bool :=
+  i != j && groups.any fun g => g.contains i && g.contains j
+
+def childrenOf (cs : Array ClusterSpec) (p : Int) : List Nat :=
+  (List.range cs.size).filter fun d => (cs[d]!).parent == p
+
+/-- all nodes of a cluster including those of nested clusters (fuel = number of clusters) -/
+def membersOf (cs : Array ClusterSpec) : Nat → Nat → List Nat
+  | 0, c => (cs[c]!).nodes
+  | fuel + 1, c => (cs[c]!).nodes ++ (childrenOf cs (c : Int)).flatMap (membersOf cs fuel)
+
+def padOf (k : ClusterSpec) (d : Dim) : Rat × Rat :=
+  match d with | .x => (k.pad[0]!, k.pad[1]!) | .y => (k.pad[2]!, k.pad[3]!)
+def marOf (k : ClusterSpec) (d : Dim) : Rat × Rat :=
+  match d with | .x => (k.mar[0]!, k.mar[1]!) | .y => (k.mar[2]!, k.mar[3]!)
+
+def showSeps (l : List Sep) : String :=
+  toString (l.map fun s => s!"({s.left},{s.right},{ratToString s.gap})")
+
+def checkGen (c : Case) : CaseResult := Id.run do
+  let some rects := parseRects c "rect" | return { verdict := .diverge "unparsable rects" }
+  let some cs := parseClusters c | return { verdict := .diverge "unparsable clusters" }
+  let some bounds := parseRects c "bounds" | return { verdict := .diverge "unparsable bounds" }
+  let cvar : Array Nat := (c.get "cvar").map fun l => nat! (l[1]?.getD "0")
+  let exempt := exemptFn (parseExempt c)
+  -- replay the addShape / addCluster calls
+  let mut st : NocState := {}
+  for l in c.lines do
+    if l[0]! == "addshape" then
+      match num? l[2]!, num? l[3]! with
+      | some hw, some hh => st := st.addShape exempt (nat! l[1]!) hw hh (nat! l[4]!)
+      | _, _ => return { verdict := .diverge "unparsable addshape" }
+    else if l[0]! == "addcluster" then
+      let cid := nat! l[1]!
+      let k := cs[cid]!
+      let sh : NoShape := .cluster (cvar[cid]!) (bounds[cid]!) k.mar[0]! k.mar[1]! k.mar[2]! k.mar[3]!
+      st := st.addCluster sh k.nodes (nat! l[2]!)
+  let mut ncons := 0
+  let mut nclu := 0
+  for dn in [0, 1] do
+    let d := Dim.ofNat' dn
+    let model := st.seps rects d
+    let impl := ((c.get "nocon").filter fun l => l[0]! == toString dn).toList
+    if impl.length != model.length then
+      return { verdict := .diverge s!"non-overlap dim {dn}: impl {impl.length} constraints, model {model.length}: {showSeps model}" }
+    for (l, m) in impl.zip model do
+      if !(nat! l[1]! == m.left && nat! l[2]! == m.right && num? l[3]! == some m.gap && (l[4]! == "1") == m.eq) then
+        return { verdict := .diverge s!"non-overlap dim {dn}: impl {l} model ({m.left},{m.right},{ratToString m.gap})" }
+    ncons := ncons + model.length
+    for cid in [0:cs.size] do
+      let k := cs[cid]!
+      let (pMin, pMax) := padOf k d
+      let nodes := k.nodes.map fun i => (i, (rects.getD i default).len d / 2)
+      let children := (childrenOf cs (cid : Int)).map fun ch => (cvar[ch]!, (marOf cs[ch]! d).1, (marOf cs[ch]! d).2)
+      let model := containmentSeps (cvar[cid]!) pMin pMax nodes children
+      let impl := ((c.get "cccon").filter fun l => l[0]! == toString cid && l[1]! == toString dn).toList
+      if impl.length != model.length then
+        return { verdict := .diverge s!"containment cluster {cid} dim {dn}: impl {impl.length} constraints, model {model.length}" }
+      for (l, m) in impl.zip model do
+        if !(nat! l[2]! == m.left && nat! l[3]! == m.right && num? l[4]! == some m.gap && (l[5]! == "1") == m.eq) then
+          return { verdict := .diverge s!"containment cluster {cid} dim {dn}: impl {l} model ({m.left},{m.right},{ratToString m.gap})" }
+      nclu := nclu + model.length
+  return { verdict := .ok, nontrivial := ncons > 0,
+           stats := [("gen.nonoverlap.constraints", ncons), ("gen.containment.constraints", nclu), ("gen.pairs", st.pairs.length)] }
+
+def allFinite (c : Case) (key : String) : Bool :=
+  (c.get key).all fun l => (l.extract 1 5).all fun s => match dbl? s with | some d => d.isFinite | none => false
+
+def checkLayout (c : Case) : CaseResult := Id.run do
+  let some rects := parseRects c "rect" | return { verdict := .diverge "unparsable rects" }
+  let some cs := parseClusters c | return { verdict := .diverge "unparsable clusters" }
+  let str (k : String) : String := (((c.get1 k).getD #["?"])[0]?).getD "?"
+  let mut stats : List (String × Nat) := [("start." ++ str "start", 1), ("graph." ++ str "graph", 1),
+    ("clusters." ++ toString cs.size, 1), ("exemptgroups." ++ toString (parseExempt c).length, 1)]
+  match c.get1 "hang" with
+  | some l => return { verdict := .specfail s!"hang: makeFeasible()+run() did not return within {l[0]?.getD "?"} s", stats := stats }
+  | none => pure ()
+  if !(allFinite c "out") then
+    return { verdict := .specfail "non-finite coordinate in the final rectangles", stats := stats }
+  let some outs := parseRects c "out" | return { verdict := .diverge "unparsable output" }
+  if outs.size != rects.size then return { verdict := .diverge "wrong number of output rectangles", stats := stats }
+  let exc := str "exc"
+  if exc != "none" then
+    return { verdict := .specfail s!"exception[fdmfrun]: {exc} escaped makeFeasible()+run()", stats := stats }
+  let nrep := (c.get "unsat").size
+  let exempt := exemptFn (parseExempt c)
+  let initialOverlaps := (offending rects exempt tolC08).length
+  stats := bumpStats stats "initial.overlapping_pairs" initialOverlaps
+  let bad := offending outs exempt tolC08
+  -- clusters
+  let fuel := cs.size
+  let mem (cid : Nat) : List Nat := membersOf cs fuel cid
+  let mut sibBad : List (Nat × Nat) := []
+  let mut foreignBad : List (Nat × Nat) := []
+  for a in [0:cs.size] do
+    if !(noForeignInside tolC08 outs (mem a)) then
+      match bbox outs (mem a) with
+      | some b =>
+        for i in [0:outs.size] do
+          if !((mem a).contains i) && centreInside tolC08 b (outs.getD i default) then foreignBad := (a, i) :: foreignBad
+      | none => pure ()
+    for b in [0:a] do
+      if (cs[a]!).parent == (cs[b]!).parent && !(boxesDisjoint tolC08 outs (mem a) (mem b)) then sibBad := (b, a) :: sibBad
+  if nrep > 0 then
+    stats := bumpStats stats "excused.reported_unsat" 1
+    if !bad.isEmpty || !sibBad.isEmpty || !foreignBad.isEmpty then stats := bumpStats stats "excused.with_overlap" 1
+    return { verdict := .ok, nontrivial := false, stats := stats }
+  match bad with
+  | p :: _ =>
+    let a := outs.getD p.1 default; let b := outs.getD p.2 default
+    return { verdict := .specfail s!"overlap nodes {p.1},{p.2}: {ratToString (Rect.ovX a b)} in x and {ratToString (Rect.ovY a b)} in y (> 1e-3 in both), nothing reported unsatisfiable; {bad.length} offending pairs; clusters={cs.size}",
+             stats := stats }
+  | [] => pure ()
+  match sibBad with
+  | p :: _ => return { verdict := .specfail s!"sibling-clusters {p.1},{p.2}: member bounding boxes overlap by more than 1e-3 in both dimensions, nothing reported unsatisfiable", stats := stats }
+  | [] => pure ()
+  match foreignBad with
+  | p :: _ => return { verdict := .specfail s!"foreign-node: centre of node {p.2} lies inside the member bounding box of cluster {p.1}, nothing reported unsatisfiable", stats := stats }
+  | [] => pure ()
+  return { verdict := .ok, nontrivial := initialOverlaps > 0 || cs.size > 0, stats := stats }
+
+def run (_args : List String) : IO UInt32 :=
+  runCases (fun c => if c.tag.startsWith "gen" then checkGen c else checkLayout c)
 
 end Driver.C08
